@@ -8,7 +8,7 @@ pub fn f4_role(x: f64, y: f64) -> bool {
   let eps = 9.094947017729282e-13;   // 2^-40
   let ay = if y < 0.0 { -y } else { y };
   if ay <= 1.0 - eps { return false; }
-  let mut q = (x / 2.0) as u64 as f64;
+  let mut q = (x * 0.5) as u64 as f64;
   if q > 3.0 { q = 3.0; }
   let u = x - (2.0 * q + 1.0);
   let au = if u < 0.0 { -u } else { u };
